@@ -55,7 +55,8 @@ IL_INLINE W sarw(W a, W n) { int32_t x = (int32_t)a; n &= 31; return (W)(x < 0 ?
 IL_INLINE L sarl(L a, W n) { int64_t x = (int64_t)a; n &= 63; return (L)(x < 0 ? ~(~(L)x >> n) : (L)x >> n); }
 IL_INLINE L f2sl(D x) { if (x >= -9223372036854775808.0 && x < 9223372036854775808.0) return (L)(int64_t)x; return 0x8000000000000000ull; }
 IL_INLINE W f2sw(D x) { if (x > -2147483649.0 && x < 2147483648.0) return (W)(int32_t)x; return 0x80000000u; }
-IL_INLINE L f2ul(D x) { if (x < 9223372036854775808.0) return f2sl(x); return f2sl(x - 9223372036854775808.0) ^ 0x8000000000000000ull; }
+/* as the amd64 backend lowers dtoui/stoui: two signed conversions combined; out of range -> the x86 'integer indefinite' pattern propagates */
+IL_INLINE L f2ul(D x) { L a = f2sl(x), m = (L)((int64_t)a >> 63), b = f2sl(x - 9223372036854775808.0) & m; return a | b; }
 IL_INLINE W f2uw(D x) { return (W)f2sl(x); }
 '''
 
